@@ -66,9 +66,25 @@ pub fn shape_content(mut v: Vec<u8>, mode: u8, aux: u8) -> Vec<u8> {
         }
         13 => v.iter_mut().enumerate().for_each(|(i, b)| *b = aux.wrapping_add(i as u8)),
         14 => {
-            let inner = refmodel::build_control_request(aux & 0x7F, 0x10, aux, 0x10, 0, 0x02, &[]);
-            for (d, s) in v.iter_mut().zip(inner.iter()) {
-                *d = *s;
+            if n >= 10 && n <= 259 {
+                // the payload is itself a complete, well-formed frame of its own
+                // length (a relayed / tunnelled packet): framing bytes, header
+                // version, SOM/EOM and a correct PEC, the rest stays random
+                v[0] &= 0xFE;
+                v[1] = 0x0F;
+                v[2] = (n - 4) as u8;
+                v[3] |= 1;
+                v[4] = 0x01;
+                v[7] |= 0xC0;
+                if aux & 1 == 0 {
+                    v[8] = [0x00, 0x7E, 0x7F, 0x05][(aux >> 1 & 3) as usize];
+                }
+                v[n - 1] = crate::crc::crc8(&v[..n - 1]);
+            } else {
+                let inner = refmodel::build_control_request(aux & 0x7F, 0x10, aux, 0x10, 0, 0x02, &[]);
+                for (d, s) in v.iter_mut().zip(inner.iter()) {
+                    *d = *s;
+                }
             }
         }
         15 => {
@@ -375,6 +391,8 @@ pub fn sender_history() -> BoxedStrategy<Vec<Op>> {
         2 => (actionable_request(), 64u16..=128, any::<u8>()).prop_map(|(bytes, cap, fill)| Op::Process { bytes, cap, fill }),
         2 => (ctrl_request(0x23, 1, [2, 2, 2, 2, 2, 2, 2]), 64u16..=128, any::<u8>()).prop_map(|(bytes, cap, fill)| Op::Process { bytes, cap, fill }),
         1 => ref_valid_packet().prop_map(|bytes| Op::Decode { bytes }),
+        2 => (plausible_response(), 64u16..=128, any::<u8>()).prop_map(|(bytes, cap, fill)| Op::Process { bytes, cap, fill }),
+        1 => plausible_response().prop_map(|bytes| Op::Decode { bytes }),
         2 => (prop_oneof![req_call(false), resp_call(false)], addr7()).prop_map(|(call, dest)| Op::Encode { call, dest }),
         1 => uuid().prop_map(Op::SetUuid),
     ]
@@ -389,6 +407,23 @@ pub fn sender_history() -> BoxedStrategy<Vec<Op>> {
 
 pub fn enc_env(dest: BoxedStrategy<u8>) -> BoxedStrategy<EncEnv> {
     (addr7(), dest, any_u8(), any_u8(), prop_oneof![3 => Just(false), 1 => Just(true)], sender_history())
+        .prop_map(|(addr, dest, eid_req, eid_resp, eid_via_process, mut hist)| {
+            // relation between the history and the call under test: one case in
+            // four, the control responses the sender processed earlier came from
+            // the very peer (SMBus address and EID) the next packet goes to
+            if eid_req & 3 == 1 {
+                for op in hist.iter_mut() {
+                    if let Op::Process { bytes, .. } = op {
+                        if bytes.len() > 11 && bytes[8] == 0x00 && bytes[9] & 0x80 == 0 {
+                            bytes[3] = (dest << 1) | 1;
+                            bytes[6] = dest;
+                            refmodel::fix_pec(bytes);
+                        }
+                    }
+                }
+            }
+            (addr, dest, eid_req, eid_resp, eid_via_process, hist)
+        })
         .prop_map(|(addr, dest, eid_req, eid_resp, eid_via_process, hist)| EncEnv {
             addr,
             dest,
@@ -693,6 +728,49 @@ pub fn actionable_request() -> BoxedStrategy<Vec<u8>> {
         .boxed()
 }
 
+/// Success control responses whose data *looks like* what a real responder
+/// sends (rather than uniformly random bytes): version entries in the 0xF1 0xFx
+/// BCD style with every plausible major / minor, EIDs with status bytes,
+/// message-type lists, vendor ID answers of either format.  Data lengths are the
+/// ones the decoder accepts for the command.
+pub fn plausible_response() -> BoxedStrategy<Vec<u8>> {
+    let bcd = || prop_oneof![6 => (0u8..=9).prop_map(|d| 0xF0 | d), 1 => Just(0xFFu8), 1 => Just(0x00u8), 1 => 0u8..=0x99];
+    let data: BoxedStrategy<(u8, Vec<u8>)> = prop_oneof![
+        3 => (prop_oneof![6 => Just(0xF1u8), 1 => Just(0xF0u8), 1 => Just(0xF2u8), 1 => Just(0x01u8)], bcd(), bcd(), prop_oneof![Just(0x00u8), Just(0x61u8), any::<u8>()], 1u8..=2)
+            .prop_map(|(maj, min, upd, alpha, n)| (0x04u8, vec![n, maj, min, upd, alpha])),
+        2 => (0u8..4, 0u8..4, set_eid_value(true), any_u8()).prop_map(|(a, b, eid, pool)| (0x01u8, vec![(a << 4) | b, eid, pool])),
+        2 => (set_eid_value(true), 0u8..4, 0u8..4, any_u8()).prop_map(|(eid, t, i, m)| (0x02u8, vec![eid, (t << 4) | i, m, 0])),
+        1 => uuid().prop_map(|u| (0x03u8, u.to_vec())),
+        1 => msg_type_list(false).prop_map(|t| { let mut d = vec![t.len() as u8]; d.extend_from_slice(&t); (0x05u8, d) }),
+        1 => (any_u8(), vendor_set()).prop_map(|(sel, (f, id, num))| {
+            let mut d = vec![sel, f];
+            if f == 0 { d.extend_from_slice(&(id as u16).to_be_bytes()); } else { d.extend_from_slice(&id.to_be_bytes()); }
+            d.extend_from_slice(&num.to_be_bytes());
+            (0x06u8, d)
+        }),
+        1 => (0x07u8..=0x14, vec(any::<u8>(), 0..=6)).prop_map(|(c, d)| (c, d)),
+    ]
+    .boxed();
+    (addr7(), addr7(), any_u8(), any_u8(), prop_oneof![3 => Just(0u8), 1 => 0u8..32], data)
+        .prop_map(|(dst, src, de, se, iid, (cmd, mut d))| {
+            // the decoder's fixed response lengths
+            let fixed = match cmd {
+                0x01 => Some(3),
+                0x02 => Some(3),
+                0x03 => Some(16),
+                0x04 => Some(5),
+                0x08 => Some(4),
+                0x09 => Some(1),
+                _ => None,
+            };
+            if let Some(l) = fixed {
+                d.resize(l, 0);
+            }
+            refmodel::build_control_response(dst, src, de, se, iid, cmd, 0, &d)
+        })
+        .boxed()
+}
+
 /// The standard mix of receive-path inputs.
 pub fn recv_input() -> BoxedStrategy<Vec<u8>> {
     prop_oneof![
@@ -703,6 +781,7 @@ pub fn recv_input() -> BoxedStrategy<Vec<u8>> {
         3 => actionable_request(),
         2 => random_behind_header(),
         1 => random_bytes(300),
+        2 => plausible_response(),
     ]
     .boxed()
 }
